@@ -20,8 +20,9 @@ Apply(st, e) ==
     [] e.op = "BatchGet" -> BatchGet(st, SetOf(e.ks))
     [] e.op = "Flush" -> Flush(st, e.force)
     [] e.op = "FlushWait" -> FlushWait(st)
-    [] e.op = "Staging" -> Ret("ok", 0, [st EXCEPT !.staging = @ + 1])
-    [] e.op = "Release" -> Ret("ok", 0, [st EXCEPT !.staging = @ - 1])
+    [] e.op = "Staging" -> Staging(st)
+    [] e.op = "Release" -> Release(st)
+    [] e.op = "Cleanup" -> Cleanup(st)
 Init == pos = 1 /\ s = InitState /\ skip = FALSE
 Next ==
   /\ pos <= Len(Trace) /\ pos' = pos + 1
@@ -42,6 +43,7 @@ Next ==
        [] Ev.ev = "flushdone" ->
             /\ Check(s.running, "a flush completed that was not running", Ev.gen)
             /\ s' = FlushDone(s, Ev.ok) /\ UNCHANGED skip
+       [] Ev.ev = "hang" -> Bad("a call on the pipelined buffer never returned (the scenario did not end within 30 s)", Ev.scn) /\ UNCHANGED <<s, skip>>
        [] OTHER -> UNCHANGED <<s, skip>>
 Spec == Init /\ [][Next]_<<pos, s, skip>>
 Done == TLCGet("stats").diameter - 1 = Len(Trace) \/ PrintT(<<"INCOMPLETE", TLCGet("stats").diameter>>)
